@@ -11,7 +11,7 @@ macro step).
 """
 import struct
 
-from mc import core, explore
+from mc import core, explore, lap
 from mc.world import World
 from mc.pair import DeliveryMonitor, app_send, payload
 
@@ -219,6 +219,7 @@ def classify(sig, labels, params):
 
 def run(tier, seed):
     rep = core.Report()
+    laps = lap.start(tier)
     plist = params_list(tier)
     if seed:
         k = seed % len(plist)
@@ -240,7 +241,11 @@ def run(tier, seed):
         sig = v["sig"]
         rep.add_violation(core.Violation(v["oracle"], sig, {"params": v["params"], "choices": v["choices"], "labels": v["labels"]},
                                          "%s | params=%r deviations=%r" % (v["message"], v["params"], v["labels"])))
+    lap_v, lap_cov = lap.collect(laps, PROPERTY)
+    for v in lap_v:
+        rep.add_violation(v)
     rep.coverage = {
+        "long_session_part": lap_cov,
         "states": st.points, "transitions": st.steps, "traces_validated_against_impl": st.executions,
         "executions": st.executions, "executions_by_deviation_count": st.by_cost,
         "max_deviations_completed": bound if not st.capped else "capped (time budget) - see exhaustive",
@@ -258,6 +263,8 @@ def run(tier, seed):
 
 
 def replay(witness):
+    if "lap" in witness:
+        return lap.replay(witness, PROPERTY)
     ch = explore.replay_choices(scenario, tuple(_tup(witness["params"])), witness["choices"])
     return [core.Violation(o, s, witness, m) for o, s, m in ch.found]
 
